@@ -73,7 +73,7 @@ func (c *Ctx) checkRing() {
 		if !ok {
 			return
 		}
-		if b, ok := ret.Results[0].(*ssa.BinOp); ok && b.Op == token.LSS && core.IsFieldLoad(keyF)(b.X) && core.IsFieldLoad(keyF)(b.Y) {
+		if b := core.NormCond(core.Strip(ret.Results[0])); b.Op == token.LSS && !b.Negated && core.IsFieldLoad(keyF)(b.X) && core.IsFieldLoad(keyF)(b.Y) {
 			g := core.EqGuard("hash equal", core.IsFieldLoad(hashF), core.IsFieldLoad(hashF), true)
 			if ok2, cnt := core.GuardedBy(less, ret, g); ok2 && cnt[0] > 0 {
 				okTie = true
@@ -391,11 +391,15 @@ func (c *Ctx) checkPartition() {
 		if !ok {
 			return
 		}
-		if _, isK := ret.Results[0].(*ssa.Const); isK {
+		if ret.Block().Comment == "recover" {
+			return
+		}
+		res := core.Strip(ret.Results[0])
+		if _, isK := res.(*ssa.Const); isK {
 			return // the single-node early return
 		}
 		// partitioned <=> active <= X <=> !(X < active), in any spelling
-		a := core.NormCond(ret.Results[0])
+		a := core.NormCond(res)
 		if a.Op != token.LSS || !a.Negated || !isLenOf(core.IsFieldLoad(activeF))(a.Y) {
 			return
 		}
